@@ -241,7 +241,9 @@ deriving Repr
 
 /-- pixels of the result (`Image.warp_to_shape`) -/
 def Plan2.run (p : Plan2) (o : Interp) (im : Img2) : Img2 := warp2 (p.order.getD o) p.mode im p.h p.w p.T
-/-- the boolean output array casts `cval`: anything of magnitude ≥ 1 is `True` -/
+/-- the boolean output array casts `cval` (a C cast through an 8-bit integer): for `|cval| < 256`, the range the model
+claims and the harness uses, anything of magnitude ≥ 1 is `True`; multiples of 256 (256.0, 512.0, 1e10 …) wrap to `False`
+in scipy and are OUTSIDE this definition (contract parameter, listed in INFO) -/
 def maskMode : Mode → Mode
   | .nearest => .nearest
   | .constant cv => .constant (if cv ≤ -1 ∨ 1 ≤ cv then 1 else 0)
